@@ -802,70 +802,15 @@ def _annot_common(v, rec):
     return ["other", type(v).__name__]
 
 
-class _PointPath:
-    """path manager deciding every branch by evaluating its condition at a concrete point"""
-
-    def __init__(self, frac, subs):
-        self.frac, self.subs, self.pc = frac, subs, []
-
-    def decide(self, b):
-        if hasattr(b, "e"):
-            r = z3.is_true(z3.simplify(z3.substitute(b.e, *self.subs)))
-        else:
-            val = S.NumEnv(self.frac).value(b.p)
-            r = {"<0": val < 0, "<=0": val <= 0, ">0": val > 0, ">=0": val >= 0, "==0": val == 0, "!=0": val != 0}[b.rel]
-        self.pc.append(b if r else b.negate())
-        return bool(r)
-
-
 def _symbolic_record(cls, build, var):
     """x.raw and from_dict(x.raw) computed by the MODEL (patched modules, symbolic leaves) along the path of the
     default point, evaluated at that point."""
-    probe = CS.SymMk(var.get("flavour", "py"))
-    ctx.reset()
-    ctx.path = None
-    frac, subs = {}, []
-    pp = _PointPath(frac, subs)
-
-    class _Mk(CS.SymMk):
-        def _reg(self, name):
-            kind, default = self.defaults[name]
-            if kind == "f":
-                frac[name] = Fraction(default)
-            elif kind == "i":
-                subs.append((z3.Int(name), z3.IntVal(int(default))))
-            else:
-                subs.append((z3.Bool(name), z3.BoolVal(bool(default))))
-
-        def float(self, name, default=None, positive=False, tag=None):
-            x = CS.SymMk.float(self, name, default, positive, tag)
-            self._reg(name)
-            return x
-
-        def int(self, name, default=None, lo=None, hi=None, tag=None):
-            x = CS.SymMk.int(self, name, default, lo, hi, tag)
-            self._reg(name)
-            return x
-
-        def bool(self, name, default=None, tag=None):
-            x = CS.SymMk.bool(self, name, default, tag)
-            self._reg(name)
-            return x
-
-    def ev(leaf):
-        if isinstance(leaf, CS.IL):
-            return leaf.e if isinstance(leaf.e, int) else int(str(z3.simplify(z3.substitute(leaf.e, *subs))))
-        if isinstance(leaf, CS.BL):
-            return leaf.e if isinstance(leaf.e, bool) else z3.is_true(z3.simplify(z3.substitute(leaf.e, *subs)))
-        return float(S.NumEnv(frac).value(leaf))
-
-    ctx.path = pp
     rec = {}
-    try:
-        x = build(_Mk(var.get("flavour", "py")), var)
+    with CS.AtDefaultPoint(var.get("flavour", "py")) as pt:
+        x = build(pt.mk, var)
         try:
             raw = x.raw
-            rec["raw"] = _annot_sym(raw, ev)
+            rec["raw"] = _annot_sym(raw, pt.ev)
         except Exception as e:
             if _engine_exc(e):
                 raise
@@ -873,13 +818,11 @@ def _symbolic_record(cls, build, var):
             rec["loaded"] = "EXC"
             return rec
         try:
-            rec["loaded"] = _annot_sym(cls.from_dict(raw), ev)
+            rec["loaded"] = _annot_sym(cls.from_dict(raw), pt.ev)
         except Exception as e:
             if _engine_exc(e):
                 raise
             rec["loaded"] = "EXC"
-    finally:
-        ctx.path = None
     return rec
 
 
